@@ -90,7 +90,9 @@ def run(tier: str = "quick", seed: int = 0) -> dict:
     trees = [("U", ("T", (("L", 0), ("S", 1), ("F", 0), ("U", ("L", 2), ("S", 3)))), ("U", ("L", 1), None)),
              ("T", tuple(("L", i) if i % 3 else ("U", ("L", i), None) for i in range(13))),
              ("U", ("U", ("U", ("L", 0), ("L", 1)), None), ("T", (("U", ("L", 0), None), ("U", ("L", 0), None)))),
-             ("L", 0), ("X", ("L", 0), ("L", 1))]
+             ("L", 0), ("X", ("L", 0), ("L", 1)),
+             # same-id twins inside one tree: a detached subtree and an equal one built afterwards
+             ("T", (("D", ("U", ("L", 0), None)), ("U", ("L", 0), None), ("D", ("L", 0)), ("L", 0)))]
     paths = gen_paths(rnd, 700 if tier == "quick" else 4000)
     built = [(d, M.build(d)) for d in trees]
     for steps in paths:
